@@ -43,6 +43,7 @@ out += ["### Checks strengthened because a seeded change was missed at first", "
         "* **C07-B** (`key_buf_size: Size(n)` split into two non-power-of-two chunks for 8194 <= n < 262144): the generator drew `Size(n)` only from {0, 4096, 131072, 262144, 300000}; it now draws from a list of boundary values plus a log-uniform size up to 2 MiB for every file, in C07 and in the common parameter generator. Detected by C07 (and C01, C02, ...) afterwards.",
         "* **C16-B** (database-level `sync_*` keeps only the result of the last map): C16 used a single map, so the failing map was always the last one; it now uses 1-4 maps of mixed key types with a database-level call as the target, and the kernel calls of database-level calls are recorded for the fault-point derivation. Detected by C16 afterwards.",
         "* **C13-B** (a `.key` file of <= 192 bytes is treated as new: truncated and re-headed before the other files are checked): all C13 maps were populated; the case list now contains every ordered type pair on a created-but-empty map, and every case leaves the map empty now and then. Detected by C13 afterwards.",
+        "* **C17-R2** (value_length_stats / value_piece_size_stats return Err for a value >= 16 KiB in a slot >= 128 KiB): the C17 oracle treated an Err of a statistics call as inconclusive; it is a violation now (a diagnostic call that cannot report does not report the true structure). Detected by C17 afterwards.",
         "* Remarks of the sub-agents that changed the checks although nothing was missed: key records are sized from the width of the *raw* offsets (relocation thresholds at 16 KiB / 2 MiB, C08 generator and probes); values above 4096 bytes panic in debug-assertion builds (led to the `+dbg` pass of every check and to fix c008516).", "",
         "## 2. Hand-written mutants (/verif/mutants)", "",
         "`rev-*` = one of the `fix:` commits reverted (the defects of the pinned tree as mutants).", "",
